@@ -31,11 +31,58 @@ mod imp {
 
     fn gen_input_full(rng: &mut Rng, i: u64) -> Vec<u8> {
         let lens = [0usize, 1, 2, 7, 8, 64, 65, 300, 4096];
-        match i % 8 {
+        match i % 11 {
+            8 | 9 => {
+                // long runs of WELL-FORMED text dense in multi-byte characters (so that a character
+                // straddles every capacity offset 64 / 128 / 256 for some alignment), behind a few
+                // selector bytes and in front of a random tail (arbitrary reads lengths from the end)
+                let n = match rng.below(4) {
+                    0 => 70 + rng.usize(200),
+                    1 => 300 + rng.usize(700),
+                    _ => rng.usize(4000),
+                };
+                let pre = rng.usize(24);
+                let mut v = rng.bytes(pre);
+                if rng.bool() {
+                    for b in v.iter_mut() {
+                        *b |= 1; // booleans true: optional members present
+                    }
+                }
+                let homogeneous = i % 11 == 9;
+                let w = 2 + rng.usize(3);
+                let mut t = String::new();
+                for _ in 0..rng.usize(4) {
+                    t.push('x');
+                }
+                while t.len() < n {
+                    if homogeneous {
+                        t.push(['\u{e9}', '\u{20ac}', '\u{1f600}'][w - 2]);
+                    } else {
+                        t.push(rng.char());
+                    }
+                }
+                v.extend_from_slice(t.as_bytes());
+                let tail = rng.usize(24);
+                v.extend_from_slice(&rng.bytes(tail));
+                v
+            }
+            10 => {
+                // the same text shape but cut into fields by sprinkled selector bytes
+                let n = rng.usize(2000);
+                let mut v = Vec::with_capacity(n + 8);
+                while v.len() < n {
+                    let run = 60 + rng.usize(240);
+                    let t = rng.text_bytes(run);
+                    v.extend_from_slice(t.as_bytes());
+                    let k = rng.usize(6);
+                    v.extend_from_slice(&rng.bytes(k));
+                }
+                v
+            }
             0 => {
                 // single-byte repeats
-                let b = (i / 8 % 256) as u8;
-                vec![b; lens[(i / 8 / 256) as usize % lens.len()]]
+                let b = (i / 11 % 256) as u8;
+                vec![b; lens[(i / 11 / 256) as usize % lens.len()]]
             }
             1 => {
                 let n = rng.usize(4097);
@@ -128,15 +175,16 @@ mod imp {
 
     pub fn run(rep: &mut Rep) {
         let seed = rep.seed;
-        let n = rep.n(100_000, 20_000_000);
+        let n = rep.n(50_000, 20_000_000);
         for case in rep.pick(n * rep.nshards) {
             let i = case - 1;
             let mut rng = Rng::derive(seed, "c19", case);
             let bytes = gen_input(&mut rng, i, rep.light);
-            if !rep.begin(match i % 8 {
+            if !rep.begin(match i % 11 {
                 0 => "single-byte-repeat",
                 3 | 4 => "utf8-biased",
                 5 | 6 => "long-lengths",
+                8 | 9 | 10 => "well-formed-multibyte-text",
                 _ => "random",
             }) {
                 continue;
